@@ -4,11 +4,13 @@ FILE family: who may write which file, in which order, under which guard (DESIGN
 import ast
 
 from sa.cfg import CFG, expr_guards, facts, path_facts
-from sa.model import AnalysisError, Finding, FunctionInfo, dump, enclosing_fn, kwarg, loc, names_in, src
+from sa.model import AnalysisError, Finding, FunctionInfo, dump, enclosing_fn, kwarg, loc, names_in, order_key, src
 
 WRITE_EXT = {
     "os.remove", "os.unlink", "os.rename", "os.replace", "os.truncate", "os.rmdir", "os.removedirs",
     "shutil.rmtree", "shutil.move", "shutil.copy", "shutil.copyfile", "shutil.copy2", "os.ftruncate",
+    "os.link", "os.symlink", "os.open", "os.mkdir", "os.makedirs", "os.chmod", "shutil.copymode", "shutil.copystat",
+    "tempfile.mkstemp", "tempfile.NamedTemporaryFile", "tempfile.mkdtemp",
 }
 REPLACE_EXT = {"os.replace", "os.rename", "shutil.move"}
 
@@ -30,7 +32,13 @@ def open_mode(prog, call):
 
 
 def is_open(prog, call):
-    return isinstance(call.func, ast.Name) and prog.ext_name(call.func, call) == "builtins.open"
+    """open(path, mode) / io.open(path, mode) / os.fdopen(fd, mode): a call that yields a file object"""
+    return isinstance(call.func, (ast.Name, ast.Attribute)) and prog.ext_name(call.func, call) in ("builtins.open", "io.open", "os.fdopen")
+
+
+def is_path_open(prog, call):
+    """an open whose first argument is a path (not a descriptor)"""
+    return isinstance(call.func, (ast.Name, ast.Attribute)) and prog.ext_name(call.func, call) in ("builtins.open", "io.open")
 
 
 def sinks(prog):
@@ -102,8 +110,8 @@ def rule_file0(prog, rep, tier, workers=("conformance.ground_truth", "sync_prope
         fi = prog.fn(w)
         if id(fi) not in rs:
             raise AnalysisError("FILE-0: worker %s reaches no write sink: the sink list is stale" % w)
-    if id(prog.fn("emit.file")) not in sink_functions(prog):
-        raise AnalysisError("FILE-0: emit.file contains no write sink")
+    if not any(id(f_) in sink_functions(prog) for f_ in prog.region(prog.fn("emit.file"))):
+        raise AnalysisError("FILE-0: neither emit.file nor a helper of it contains a write sink")
     # callers of emit.file with their modes
     ef = prog.fn("emit.file")
     for caller, call in prog.callers_of(ef):
@@ -273,7 +281,7 @@ def _iterable_guards(fn_node, call, truth_names):
             conds(it.args[0], depth)
         elif isinstance(it, ast.Name) and depth < 2:
             defs = [n for n in ast.walk(fn_node) if isinstance(n, ast.Assign) and any(isinstance(t, ast.Name) and t.id == it.id for t in n.targets)]
-            defs = [d for d in defs if d.lineno < call.lineno]
+            defs = [d for d in defs if order_key(d) < order_key(call)]
             if defs:
                 conds(sorted(defs, key=lambda d: d.lineno)[-1].value, depth + 1)
 
@@ -579,16 +587,71 @@ def _with_opens(prog, fi):
                     yield node, it
 
 
+SAME_PATH_FUNCS = {"os.path.realpath", "os.path.abspath", "os.path.expanduser", "os.path.normpath", "os.fspath", "builtins.str", "os.path.expandvars",
+                   "os.fsdecode", "os.path.normcase"}
+
+
+def same_path_aliases(prog, fn_node, seeds):
+    """names that denote the same file as one of `seeds`: copies and realpath/abspath/expanduser/fspath/str wrappers
+    (a directory/basename split or a join yields a different path and is not an alias)"""
+    al = set(seeds)
+
+    def is_alias_expr(e):
+        if isinstance(e, ast.Name):
+            return e.id in al
+        if isinstance(e, ast.Call) and isinstance(e.func, (ast.Name, ast.Attribute)) and prog.ext_name(e.func, e) in SAME_PATH_FUNCS and e.args:
+            return is_alias_expr(e.args[0])
+        return False
+    changed = True
+    while changed:
+        changed = False
+        for st in ast.walk(fn_node):
+            if isinstance(st, ast.Assign) and len(st.targets) == 1 and isinstance(st.targets[0], ast.Name) and st.targets[0].id not in al and is_alias_expr(st.value):
+                al.add(st.targets[0].id)
+                changed = True
+    return al, is_alias_expr
+
+
+def only_non_regular(prog, node, fn_node, is_alias_expr):
+    """is `node` reached only when the target path is known not to be a regular file (os.path.isfile(<alias>) false)?"""
+    fs = [f for t, pol in expr_guards(node, stop=fn_node) for f in facts(t, pol)]
+    return any(isinstance(a, ast.Call) and isinstance(a.func, (ast.Name, ast.Attribute)) and prog.ext_name(a.func, a) == "os.path.isfile"
+               and a.args and is_alias_expr(a.args[0]) and pol is False for a, pol in fs)
+
+
+def atomic_replaces(prog, fn_node, is_alias_expr):
+    """calls that move a finished file onto the target path: os.replace/os.rename/shutil.move(tmp, <target alias>),
+    os.link(tmp, <target alias>) - directly or in a helper that is handed the alias"""
+    out = []
+    for c in ast.walk(fn_node):
+        if isinstance(c, ast.Call) and isinstance(c.func, (ast.Name, ast.Attribute)):
+            en = prog.ext_name(c.func, c)
+            if en in REPLACE_EXT | {"os.link"} and len(c.args) >= 2 and is_alias_expr(c.args[1]) and not is_alias_expr(c.args[0]):
+                out.append(c)
+    return out
+
+
 def rule_file3(prog, rep, tier, armed=("emit.file",), informational=("gen.gen",)):
     """FILE-3: the text is fully rendered before the file is opened for writing."""
     n = 0
     for q in armed + informational:
-        fi = prog.fn(q)
+        fi = prog.inl(prog.fn(q))
+        params = [p_ for p_ in fi.params() if "file" in p_ or "path" in p_] or fi.params()[1:2]
+        aliases, is_alias_expr = same_path_aliases(prog, fi.node, params)
+        atomic = atomic_replaces(prog, fi.node, is_alias_expr)
         for w, it in _with_opens(prog, fi):
             kind, _ = open_mode(prog, it.context_expr)
             if kind == "read":
                 continue
             n += 1
+            opened = it.context_expr.args[0] if it.context_expr.args else None
+            if atomic and only_non_regular(prog, w, fi.node, is_alias_expr):
+                rep.holds("FILE-3", "%s: direct open only of a path that is not a regular file" % q, loc(prog, w), "a device / FIFO has no content to lose")
+                continue
+            if atomic and not (is_path_open(prog, it.context_expr) and is_alias_expr(opened)):
+                rep.holds("FILE-3", "%s: the file written is a temporary one, moved onto the target afterwards (%s)" % (q, src(atomic[0], 50)), loc(prog, w),
+                          "an error while it is open leaves the target untouched")
+                continue
             fvar = it.optional_vars.id if isinstance(it.optional_vars, ast.Name) else None
             bad = []
             for s in w.body:
@@ -599,7 +662,7 @@ def rule_file3(prog, rep, tier, armed=("emit.file",), informational=("gen.gen",)
                     nm = s.value.args[0].id
                     # every assignment to nm precedes the with statement
                     for a in ast.walk(fi.node):
-                        if isinstance(a, ast.Name) and a.id == nm and isinstance(a.ctx, ast.Store) and a.lineno >= w.lineno:
+                        if isinstance(a, ast.Name) and a.id == nm and isinstance(a.ctx, ast.Store) and order_key(a) >= order_key(w):
                             ok = False
                 if not ok:
                     bad.append(s)
@@ -619,41 +682,53 @@ def rule_file3(prog, rep, tier, armed=("emit.file",), informational=("gen.gen",)
 
 
 def rule_file4(prog, rep, tier, anchors=("emit.file",)):
-    """FILE-4: a file that may already exist is replaced atomically (temp file + os.replace), never opened directly."""
+    """FILE-4: a file that may already exist is replaced atomically (temp file + os.replace), never opened directly:
+    every write-mode open of the caller's path (or of an alias of it) is a violation unless the path is known not to be a
+    regular file there (devices / FIFOs have no content to protect), and some call moves a finished file onto the path."""
     for q in anchors:
-        fi = prog.fn(q)
-        params = set(fi.params())
+        fi = prog.inl(prog.fn(q))
+        params = [p_ for p_ in fi.params() if "file" in p_ or "path" in p_] or fi.params()[1:2]
+        aliases, is_alias_expr = same_path_aliases(prog, fi.node, params)
+        atomic = atomic_replaces(prog, fi.node, is_alias_expr)
         found = False
         for node in ast.walk(fi.node):
             if isinstance(node, ast.Call) and is_open(prog, node) and open_mode(prog, node)[0] != "read":
                 found = True
                 p = node.args[0] if node.args else kwarg(node, "file")
-                direct = isinstance(p, ast.Name) and p.id in params
-                replaces = [c for c in ast.walk(fi.node) if isinstance(c, ast.Call) and prog.ext_name(c.func, c) in REPLACE_EXT
-                            and len(c.args) >= 2 and names_in(c.args[1]) & params]
-                if direct or not replaces:
+                direct = is_path_open(prog, node) and p is not None and is_alias_expr(p)
+                if direct:
+                    # accepted: the branch is taken only when the path is not a regular file
+                    fs = [f for t, pol in expr_guards(node, stop=fi.node) for f in facts(t, pol)]
+                    not_regular = any(isinstance(a, ast.Call) and isinstance(a.func, (ast.Name, ast.Attribute)) and prog.ext_name(a.func, a) == "os.path.isfile"
+                                      and a.args and is_alias_expr(a.args[0]) and pol is False for a, pol in fs)
+                    if not_regular and atomic:
+                        rep.holds("FILE-4", "%s opens %s directly only when it is not a regular file" % (q, src(p)), loc(prog, node), "nothing to protect in a device / FIFO")
+                        continue
                     rep.violation(Finding(
                         "FILE-4", q, "direct-open:%s" % (src(p) if p is not None else "?"),
                         "%s opens the caller's path directly with a truncating/appending mode (%s); an I/O error between open and the end "
                         "of write leaves a truncated or half-written file. Accepted idiom: write a temp file in the same directory, "
                         "then os.replace(tmp, path)." % (q, src(node)), loc(prog, node)))
+                elif not atomic:
+                    rep.violation(Finding(
+                        "FILE-4", q, "no-replace:%s" % (src(p) if p is not None else "?"),
+                        "%s writes %s but nothing moves the finished file onto the caller's path" % (q, src(p) if p is not None else "a file"), loc(prog, node)))
                 else:
-                    rep.holds("FILE-4", "%s writes a temp file and os.replace()s it" % q, loc(prog, node), "")
+                    rep.holds("FILE-4", "%s writes a temporary file and moves it onto the target (%s)" % (q, src(atomic[0], 50)), loc(prog, node), "")
         if not found:
-            # maybe uses tempfile API entirely
-            replaces = [c for c in ast.walk(fi.node) if isinstance(c, ast.Call) and prog.ext_name(c.func, c) in REPLACE_EXT]
-            if replaces:
-                rep.holds("FILE-4", "%s replaces atomically" % q, loc(prog, replaces[0]), "")
+            if atomic:
+                rep.holds("FILE-4", "%s replaces atomically" % q, loc(prog, atomic[0]), "")
             else:
                 raise AnalysisError("FILE-4: no write in %s" % q)
 
 
 def rule_file5(prog, rep, tier, anchor="emit.file"):
     """FILE-5: data appended to an existing file starts on a new line (depends on the existing tail or begins with '\\n')."""
-    fi = prog.fn(anchor)
+    fi0 = prog.fn(anchor)
+    fi = prog.inl(fi0)
     # which callers append?
     modes = []
-    for caller, call in prog.callers_of(fi):
+    for caller, call in prog.callers_of(fi0):
         m = kwarg(call, "mode", 2)
         modes.append((caller, call, m))
     default_mode = None
@@ -672,14 +747,27 @@ def rule_file5(prog, rep, tier, anchor="emit.file"):
     # find the write(s) and the written variable
     ok_all = True
     n = 0
+    params5 = [p_ for p_ in fi.params() if "file" in p_ or "path" in p_] or fi.params()[1:2]
+    _, is_alias5 = same_path_aliases(prog, fi.node, params5)
+    # data read back from the target itself (the rewrite-append idiom: new content = old content + text)
+    old_content = set()
+    for w0, it0 in _with_opens(prog, fi):
+        c0 = it0.context_expr
+        if open_mode(prog, c0)[0] == "read" and is_path_open(prog, c0) and c0.args and is_alias5(c0.args[0]) and isinstance(it0.optional_vars, ast.Name):
+            old_content |= derived(w0, {it0.optional_vars.id}) - {it0.optional_vars.id}
+    old_content = derived(fi.node, old_content) if old_content else set()
     for w, it in _with_opens(prog, fi):
         kind, mexpr = open_mode(prog, it.context_expr)
-        if kind == "read" or kind == "write":
+        all_written = [s.value.args[0] for s in ast.walk(w) if isinstance(s, ast.Expr) and isinstance(s.value, ast.Call)
+                       and isinstance(s.value.func, ast.Attribute) and s.value.func.attr == "write" and s.value.args]
+        rewrite_append = kind == "write" and any(isinstance(x, ast.Name) and x.id in old_content for x in all_written)
+        if kind == "read" or (kind == "write" and not rewrite_append):
             continue
+        if only_non_regular(prog, w, fi.node, is_alias5):
+            continue  # a device / FIFO has no existing last line to be glued to
         n += 1
         fvar = it.optional_vars.id if isinstance(it.optional_vars, ast.Name) else None
-        written = [s.value.args[0] for s in ast.walk(w) if isinstance(s, ast.Expr) and isinstance(s.value, ast.Call)
-                   and isinstance(s.value.func, ast.Attribute) and s.value.func.attr == "write" and s.value.args]
+        written = [x for x in all_written if not (rewrite_append and isinstance(x, ast.Name) and x.id in old_content)]
         good = False
         for wx in written:
             if _starts_with_newline(wx):
@@ -687,13 +775,13 @@ def rule_file5(prog, rep, tier, anchor="emit.file"):
             if isinstance(wx, ast.Name):
                 # a (re)definition of the written name that prefixes a newline, guarded by a test that depends on data read from the same path
                 for s in ast.walk(fi.node):
-                    if isinstance(s, ast.Assign) and any(isinstance(t, ast.Name) and t.id == wx.id for t in s.targets) and s.lineno < w.lineno:
+                    if isinstance(s, ast.Assign) and any(isinstance(t, ast.Name) and t.id == wx.id for t in s.targets) and order_key(s) < order_key(w):
                         if _starts_with_newline(s.value) and wx.id in names_in(s.value):
                             gs = expr_guards(s, stop=fi.node)
                             gnames = set()
                             for t, p in gs:
                                 gnames |= names_in(t)
-                            read_names = _names_read_from_path(prog, fi, it.context_expr)
+                            read_names = _names_read_from_path(prog, fi, it.context_expr) | old_content
                             unconditional = not gs
                             if unconditional or (gnames & read_names) or any(_guard_reads_path(prog, t, it.context_expr) for t, p in gs):
                                 good = True
@@ -703,11 +791,11 @@ def rule_file5(prog, rep, tier, anchor="emit.file"):
             # formatter that strips leading blank lines) between the prefixing assignment and the write
             for wx in written:
                 if isinstance(wx, ast.Name):
-                    assigns = sorted((s2 for s2 in ast.walk(fi.node) if isinstance(s2, ast.Assign) and any(isinstance(t, ast.Name) and t.id == wx.id for t in s2.targets) and s2.lineno < w.lineno),
-                                     key=lambda s2: s2.lineno)
+                    assigns = sorted((s2 for s2 in ast.walk(fi.node) if isinstance(s2, ast.Assign) and any(isinstance(t, ast.Name) and t.id == wx.id for t in s2.targets) and order_key(s2) < order_key(w)),
+                                     key=lambda s2: order_key(s2))
                     pref = [s2 for s2 in assigns if _starts_with_newline(s2.value) and wx.id in names_in(s2.value)]
                     if pref:
-                        after = [s2 for s2 in assigns if s2.lineno > pref[-1].lineno and not (_starts_with_newline(s2.value) and wx.id in names_in(s2.value))]
+                        after = [s2 for s2 in assigns if order_key(s2) > order_key(pref[-1]) and not (_starts_with_newline(s2.value) and wx.id in names_in(s2.value))]
                         if after:
                             late = after[0]
         if good and late is not None:
